@@ -418,3 +418,416 @@ func checkSpecificKeysPlumbing(c *Ctx, rule string) {
 		c.check(okArgs, rule, callKey(g, call), p.Pos(call.Pos()), "a whole-tree upload passes no key filter", "Upload no longer runs the whole-tree upload (nil key function) on its own bundle")
 	}
 }
+
+// checkEOFByIdentity (C01, C03, C17): the blob-fetch loops of the cafs reader take exactly io.EOF as "blob complete".
+// Any other test on the read error (its text, a looser classification) accepts a transfer cut short
+// (io.ErrUnexpectedEOF, "unexpected EOF" from an HTTP body) as a complete leaf, which is then cached and served.
+func checkEOFByIdentity(c *Ctx, rule string) {
+	p := c.P
+	n := 0
+	for _, fid := range []string{"pkg/cafs.readLeafFunc", "pkg/cafs.chunkReader.Read"} {
+		f := p.Func(fid)
+		info := f.Info()
+		// error variables bound to a Read of a blob reader
+		errVars := map[*types.Var]*ast.CallExpr{}
+		ast.Inspect(f.Decl.Body, func(nd ast.Node) bool {
+			as, ok := nd.(*ast.AssignStmt)
+			if !ok || len(as.Lhs) != 2 || len(as.Rhs) != 1 {
+				return true
+			}
+			call, ok := ast.Unparen(as.Rhs[0]).(*ast.CallExpr)
+			if !ok {
+				return true
+			}
+			id := calleeID(info, call)
+			if id != "io.Reader.Read" && id != "io.ReadCloser.Read" {
+				return true
+			}
+			if eid, ok := as.Lhs[1].(*ast.Ident); ok {
+				v, _ := info.Defs[eid].(*types.Var)
+				if v == nil {
+					v, _ = info.Uses[eid].(*types.Var)
+				}
+				if v != nil {
+					errVars[v] = call
+				}
+			}
+			return true
+		})
+		for v, call := range errVars {
+			n++
+			bad := ""
+			var badPos token.Pos
+			ast.Inspect(f.Decl.Body, func(nd ast.Node) bool {
+				id, ok := nd.(*ast.Ident)
+				if !ok || info.Uses[id] != v {
+					return true
+				}
+				// is this use inside a condition (if / for / switch case / && || operand / bool assignment)?
+				inCond := false
+				var top ast.Node = id
+				for x := f.parentOf(id); x != nil; x = f.parentOf(x) {
+					switch s := x.(type) {
+					case *ast.IfStmt:
+						if s.Cond != nil && encloses(s.Cond, id.Pos()) {
+							inCond = true
+						}
+					case *ast.ForStmt:
+						if s.Cond != nil && encloses(s.Cond, id.Pos()) {
+							inCond = true
+						}
+					case *ast.CaseClause:
+						for _, e := range s.List {
+							if encloses(e, id.Pos()) {
+								inCond = true
+							}
+						}
+					case *ast.AssignStmt, *ast.ValueSpec:
+						// a boolean computed from the error (`eof := …e…`) is a condition in disguise
+						if be, ok := top.(ast.Expr); ok {
+							if tv, ok := info.Types[be]; ok && tv.Type != nil {
+								if b, ok := tv.Type.Underlying().(*types.Basic); ok && b.Kind() == types.Bool {
+									inCond = true
+								}
+							}
+						}
+					}
+					if _, isStmt := x.(ast.Stmt); isStmt {
+						break
+					}
+					top = x
+				}
+				if !inCond {
+					return true
+				}
+				// allowed: e == nil, e != nil, e == io.EOF, e != io.EOF
+				okForm := false
+				if be, ok := f.parentOf(id).(*ast.BinaryExpr); ok && (be.Op == token.EQL || be.Op == token.NEQ) {
+					other := be.Y
+					if ast.Unparen(be.Y) == ast.Expr(id) {
+						other = be.X
+					}
+					if isNil(info, other) || describeExpr(f, other, 0) == "global:io.EOF" {
+						okForm = true
+					}
+				}
+				if !okForm && bad == "" {
+					par := f.parentOf(id)
+					for i := 0; i < 3 && par != nil; i++ {
+						if _, ok := par.(*ast.CallExpr); ok {
+							break
+						}
+						par = f.parentOf(par)
+					}
+					bad, badPos = exprString(par), id.Pos()
+				}
+				return true
+			})
+			c.check(bad == "", rule, callKey(f, call), p.Pos(call.Pos()),
+				"the blob read error is tested only by identity with nil / io.EOF",
+				"the error of a blob read decides control flow through `"+bad+"` (at "+p.Pos(badPos)+") instead of identity with io.EOF: a transfer cut short (io.ErrUnexpectedEOF) is taken as a complete leaf, cached, and later reads return shifted or truncated content without error")
+		}
+	}
+	if n < 2 {
+		c.fail(rule, "pkg/cafs:blob-reads", "-", "expected the 2 blob read loops confirmed by hand (readLeafFunc, Read), found "+itoa(n))
+	}
+}
+
+// checkNoRelabelAsMissing (C06, C07, C08, C10, C12): listings skip exactly the objects whose descriptor does not exist
+// (ErrNotExists / ErrNotFound from the store). No function of the metadata layer may wrap an arbitrary error into one
+// of these sentinels: a transient read failure would then make a live bundle / label / split silently vanish from
+// listings, and squash, rename or commit act on the shortened list.
+func checkNoRelabelAsMissing(c *Ctx, rule string) {
+	p := c.P
+	n := 0
+	for _, pk := range []string{"pkg/core", "pkg/wal", "pkg/fuse", "pkg/context"} {
+		for _, f := range p.FuncsIn(pk) {
+			if f.Decl.Body == nil {
+				continue
+			}
+			info := f.Info()
+			ast.Inspect(f.Decl.Body, func(nd ast.Node) bool {
+				call, ok := nd.(*ast.CallExpr)
+				if !ok {
+					return true
+				}
+				id := calleeID(info, call)
+				if id != "pkg/errors.Error.Wrap" && id != "pkg/errors.Error.WrapWithLog" && id != "pkg/errors.Error.WrapMessage" {
+					return true
+				}
+				sel := ast.Unparen(call.Fun).(*ast.SelectorExpr)
+				recv := describeExpr(f, sel.X, 0)
+				if !(hasSuffixAny(recv, ".ErrNotExists", ".ErrNotFound")) {
+					return true
+				}
+				// wrapping nil (a pure sentinel with context) is fine; wrapping an error value relabels it
+				var wrapped ast.Expr
+				for _, a := range call.Args {
+					if isErrorType(info.TypeOf(a)) && !isNil(info, a) {
+						wrapped = a
+					}
+				}
+				if wrapped == nil {
+					return true
+				}
+				n++
+				c.fail(rule, callKey(f, call), p.Pos(call.Pos()), "`"+exprString(call)+"` relabels an arbitrary error as \"does not exist\": listings skip such objects silently, so a transient store failure makes a live bundle, label or split vanish from a listing that reports success")
+				return true
+			})
+		}
+	}
+	if n == 0 {
+		c.ok(rule, "pkg/core+wal+fuse+context:scan", "-", "no function of the metadata layer wraps an error value into ErrNotExists / ErrNotFound (the store packages classify, the metadata layer only tests)")
+	}
+}
+
+// checkReadErrorsFail (C17): in readAtBundle a backend read that failed with anything but EOF makes the operation
+// fail: no success return is reachable on the failing branch (a short count without error is taken as end of file by
+// the kernel, which zero-fills the rest).
+func checkReadErrorsFail(c *Ctx, rule string) {
+	p := c.P
+	f := p.Func("pkg/fuse.readOnlyFsInternal.readAtBundle")
+	b := p.BodyOf(f)
+	info := f.Info()
+	const clean, failed = 1, 2
+	bad := 0
+	nTests := 0
+	b.run(flowSpec{
+		entry: clean,
+		node:  func(n ast.Node, s uint64) uint64 { return s },
+		edge: func(blk *cfg.Block, i int, s uint64) uint64 {
+			cond := condOf(blk)
+			if cond == nil {
+				return s
+			}
+			call, ok := ast.Unparen(cond).(*ast.CallExpr)
+			isTest := ok && calleeID(info, call) == "pkg/fuse.errNotEOF"
+			if be, ok := ast.Unparen(cond).(*ast.BinaryExpr); ok && be.Op == token.NEQ && isNil(info, be.Y) && isErrorType(info.TypeOf(be.X)) {
+				isTest = true
+			}
+			if !isTest {
+				return s
+			}
+			if i == 0 {
+				nTests++
+				return failed
+			}
+			return s
+		},
+		exit: func(blk *cfg.Block, ret *ast.ReturnStmt, s uint64) {
+			if s&failed == 0 {
+				return
+			}
+			if ret == nil || b.classifyReturn(ret) == retSuccess {
+				bad++
+			}
+		},
+	})
+	c.check(bad == 0 && nTests >= 2, rule, f.ID, p.Pos(f.Decl.Pos()),
+		"every branch taken on a failed backend read (other than EOF) ends in an error return",
+		"readAtBundle can return success on the branch where the backend read failed with something else than EOF: the kernel takes the short count as end of file and the reader sees a truncated / zero-filled file without error")
+}
+
+// checkParamsEmittedUnconditionally (C21): in the four parameter-string builders, a string field of the parameter
+// struct is appended whatever the values of the other fields: no emission sits under a condition that tests another
+// string-valued field (fields believed to be mutually exclusive are not — YAML input sets any combination — and the
+// shell side decodes what it is given).
+func checkParamsEmittedUnconditionally(c *Ctx, rule string) {
+	p := c.P
+	n := 0
+	for _, f := range p.FuncsIn("pkg/sidecar/param") {
+		if f.Decl.Body == nil {
+			continue
+		}
+		info := f.Info()
+		ast.Inspect(f.Decl.Body, func(nd ast.Node) bool {
+			call, ok := nd.(*ast.CallExpr)
+			if !ok || calleeID(info, call) != "pkg/sidecar/param.appendToParamString" || len(call.Args) != 3 {
+				return true
+			}
+			vsel, ok := ast.Unparen(call.Args[2]).(*ast.SelectorExpr)
+			if !ok || info.Selections[vsel] == nil {
+				return true // literal or computed value
+			}
+			n++
+			bad := ""
+			for x := f.parentOf(call); x != nil; x = f.parentOf(x) {
+				ifs, ok := x.(*ast.IfStmt)
+				if !ok || encloses(ifs.Cond, call.Pos()) {
+					continue
+				}
+				ast.Inspect(ifs.Cond, func(m ast.Node) bool {
+					sel, ok := m.(*ast.SelectorExpr)
+					if !ok {
+						return true
+					}
+					s := info.Selections[sel]
+					if s == nil {
+						return true
+					}
+					v, ok := s.Obj().(*types.Var)
+					if !ok || !v.IsField() {
+						return true
+					}
+					if b, ok := v.Type().Underlying().(*types.Basic); ok && b.Kind() == types.String {
+						bad = exprString(ifs.Cond)
+					}
+					return true
+				})
+			}
+			name, _ := constString(info, call.Args[1])
+			c.check(bad == "", rule, callKey(f, call), p.Pos(call.Pos()),
+				"parameter "+name+" is emitted whatever the other string fields hold",
+				"parameter "+name+" is emitted only under `"+bad+"`, a test on another string field of the parameters: when both fields are set one of them is silently dropped from the encoded string")
+			return true
+		})
+	}
+	if n < 19 {
+		c.fail(rule, "pkg/sidecar/param:emissions", "-", "expected at least the 19 field emissions confirmed by hand, found "+itoa(n))
+	}
+}
+
+// checkRangeToReadAlwaysWalks (C22): getRangeToRead answers only from the marker walk: every return is preceded by the
+// walk over the markers (a shortcut that answers "base" from the smallest marker alone forgets to clip the length at
+// the first start marker).
+func checkRangeToReadAlwaysWalks(c *Ctx, rule string) {
+	p := c.P
+	f := p.Func("pkg/filetracker.TFile.getRangeToRead")
+	b := p.BodyOf(f)
+	const noWalk, walked = 1, 2
+	bad := 0
+	nRet := 0
+	b.run(flowSpec{
+		entry: noWalk,
+		node: func(n ast.Node, s uint64) uint64 {
+			for _, call := range callsIn(n) {
+				if hasSuffixAny(calleeID(b.Info(), call), "go-immutable-radix.Node.Walk", "go-immutable-radix.Node.WalkPrefix") {
+					return walked
+				}
+			}
+			return s
+		},
+		exit: func(blk *cfg.Block, ret *ast.ReturnStmt, s uint64) {
+			nRet++
+			if s&noWalk != 0 {
+				bad++
+			}
+		},
+	})
+	c.check(bad == 0 && nRet > 0, rule, f.ID, p.Pos(f.Decl.Pos()),
+		"every return of getRangeToRead follows the walk over the markers",
+		"getRangeToRead can return without walking the markers (a shortcut path): the length it reports is not clipped at the next marker, so a read range runs from base data into written data (or the reverse)")
+}
+
+// checkBackingFileTruncated (C18): inode numbers are recycled (allocINode pops the free list), so createNode must
+// create the backing file of a new node empty: afero's Create, or OpenFile with O_CREATE|O_TRUNC, on the path of the
+// new inode.
+func checkBackingFileTruncated(c *Ctx, rule string) {
+	p := c.P
+	f := p.Func("pkg/fuse.fsMutable.createNode")
+	info := f.Info()
+	const id = "{param#1|recv.iNodeGenerator.allocINode()}"
+	n := 0
+	ok := false
+	got := ""
+	ast.Inspect(f.Decl.Body, func(nd ast.Node) bool {
+		call, isCall := nd.(*ast.CallExpr)
+		if !isCall {
+			return true
+		}
+		switch calleeID(info, call) {
+		case "github.com/spf13/afero.Fs.Create":
+			n++
+			pth := describeExpr(f, call.Args[0], 0)
+			got = "Create(" + pth + ")"
+			ok = pth == "call:fmt.Sprint("+id+")" || pth == "call:pkg/fuse.getPathToBackingFile("+id+")"
+		case "github.com/spf13/afero.Fs.OpenFile":
+			n++
+			pth := describeExpr(f, call.Args[0], 0)
+			got = "OpenFile(" + pth + ", " + describeExpr(f, call.Args[1], 0) + ")"
+			if tv, okc := info.Types[call.Args[1]]; okc && tv.Value != nil {
+				var flags int64
+				if v, exact := constantInt64(tv.Value); exact {
+					flags = v
+				}
+				const oCreate, oTrunc = 0x40, 0x200 // os.O_CREATE, os.O_TRUNC on linux (the only platform FUSE mounts build for here)
+				ok = flags&oCreate != 0 && flags&oTrunc != 0 && (pth == "call:fmt.Sprint("+id+")" || pth == "call:pkg/fuse.getPathToBackingFile("+id+")")
+			}
+		}
+		return true
+	})
+	c.check(n == 1 && ok, rule, f.ID, p.Pos(f.Decl.Pos()),
+		"the backing file of a new node is created empty (truncating) under the new inode's number",
+		"createNode opens the backing file with `"+got+"`, which does not truncate an existing file: inode numbers are recycled after unlink+forget, so a new file starts with the bytes of the removed file that had its number (visible in its size, its reads and the committed bundle)")
+}
+
+// checkCommitWalkerReleasesBeforeWaiting (C18): a directory walker of the commit gives its concurrency slot back before
+// it waits for slots for its sub-directories; holding it (e.g. releasing in a function-level defer) dead-locks the
+// commit on trees with more simultaneously waiting walkers than slots.
+func checkCommitWalkerReleasesBeforeWaiting(c *Ctx, rule string) {
+	p := c.P
+	f := p.Func("pkg/fuse.commitUploadDir")
+	b := p.BodyOf(f)
+	info := f.Info()
+	isSem := func(e ast.Expr) bool {
+		return isStructChan(info.TypeOf(e)) && lastSelName(e) == "bufferedChanSem"
+	}
+	releases := func(n ast.Node) bool {
+		found := false
+		ast.Inspect(n, func(m ast.Node) bool {
+			if u, ok := m.(*ast.UnaryExpr); ok && u.Op == token.ARROW && isSem(u.X) {
+				found = true
+			}
+			return !found
+		})
+		return found
+	}
+	acquires := func(n ast.Node) bool {
+		found := false
+		ast.Inspect(n, func(m ast.Node) bool {
+			if _, isLit := m.(*ast.FuncLit); isLit {
+				return false
+			}
+			if s, ok := m.(*ast.SendStmt); ok && isSem(s.Chan) {
+				found = true
+			}
+			return !found
+		})
+		return found
+	}
+	const held, released = 1, 2
+	bad := false
+	nAcq := 0
+	b.run(flowSpec{
+		entry: held,
+		node: func(n ast.Node, s uint64) uint64 {
+			if _, isDefer := n.(*ast.DeferStmt); isDefer {
+				return s // runs at exit only
+			}
+			if _, isGo := n.(*ast.GoStmt); isGo {
+				return s
+			}
+			// an in-place closure (or plain statement) that receives from the semaphore releases the slot when it completes
+			if es, ok := n.(*ast.ExprStmt); ok {
+				if call, ok := es.X.(*ast.CallExpr); ok {
+					if lit, ok := ast.Unparen(call.Fun).(*ast.FuncLit); ok && releases(lit) {
+						return released
+					}
+				}
+				if releases(es) {
+					return released
+				}
+			}
+			if acquires(n) {
+				nAcq++
+				if s&held != 0 {
+					bad = true
+				}
+			}
+			return s
+		},
+	})
+	c.check(!bad && nAcq > 0, rule, f.ID, p.Pos(f.Decl.Pos()),
+		"the walker's own slot is released before it waits for a slot for a sub-directory",
+		"commitUploadDir waits for a free slot (send into the semaphore) while still holding its own (the release runs only at function exit): on a tree where more walkers wait than there are slots every slot is held by a waiting walker and the commit never finishes")
+}
